@@ -3,9 +3,9 @@
 
 static const char* const CLS[] = {
     "valid", "abbreviated", "accent-edit", "token-edit", "foreign-word", "empty-token", "separator-edit", "count-edit",
-    "length-edit", "unicode", "raw-bytes", "ambiguous", "wrong-checksum", "reserved-feature", "trailing-space", "case-edit", "byte-edit", "invisible-affix",
+    "length-edit", "unicode", "raw-bytes", "ambiguous", "wrong-checksum", "reserved-feature", "trailing-space", "case-edit", "byte-edit", "invisible-affix", "token-count-2^8",
 };
-enum { G_VALID, G_ABBREV, G_ACCENT, G_TOKEN, G_FOREIGN, G_EMPTY, G_SEP, G_COUNT, G_LENGTH, G_UNICODE, G_BYTES, G_AMBIG, G_CHECKSUM, G_RESERVED, G_TRAIL, G_CASE, G_BYTEEDIT, G_AFFIX, G_N };
+enum { G_VALID, G_ABBREV, G_ACCENT, G_TOKEN, G_FOREIGN, G_EMPTY, G_SEP, G_COUNT, G_LENGTH, G_UNICODE, G_BYTES, G_AMBIG, G_CHECKSUM, G_RESERVED, G_TRAIL, G_CASE, G_BYTEEDIT, G_AFFIX, G_MANYTOK, G_N };
 /* code points whose UTF-8 encodings are the byte-wise neighbours of the combining-mark block U+0300-U+036F (CC 80 .. CD AF) */
 static const uint32_t EDGE_CP[] = { 0x2ff, 0x300, 0x33f, 0x340, 0x34f, 0x36f, 0x370, 0x371, 0x37e, 0x37f, 0x380, 0x2c0, 0x3b1 };
 #define N_EDGE_CP (sizeof EDGE_CP / sizeof *EDGE_CP)
@@ -157,6 +157,19 @@ void pv_gen_string(pv_rng* r, unsigned enabled, pv_gstr* g) {
         }
         free(s); s = t;
     }
+    if (cls == G_MANYTOK) {
+        /* token counts around 2^8 (and 2^8 + 16, 2 * 2^8 + 16): N empty or one-letter tokens in front of or behind a valid phrase; a count
+         * kept in eight bits turns 272 tokens into 16 */
+        static const int NS[] = { 239, 240, 241, 255, 256, 257, 271, 272, 273, 496, 512 - 16, 512, 528 - 16 };
+        int N = NS[pv_randn(r, sizeof NS / sizeof *NS)]; size_t n = strlen(s);
+        bool letters = pv_randn(r, 3) == 0 && n + 2 * (size_t)N < POLYSEED_STR_SIZE - 1;
+        if (!letters && n + (size_t)N >= POLYSEED_STR_SIZE - 1) N = (int)(POLYSEED_STR_SIZE - 2 - n);
+        size_t add = (size_t)N * (letters ? 2 : 1); char* t = pv_xmalloc(n + add + 1); size_t k = 0; bool front = pv_randn(r, 2);
+        if (!front) { memcpy(t, s, n); k = n; }
+        for (int i = 0; i < N; ++i) { if (letters) { if (front) { t[k++] = (char)('a' + i % 26); t[k++] = ' '; } else { t[k++] = ' '; t[k++] = (char)('a' + i % 26); } } else t[k++] = ' '; }
+        if (front) { memcpy(t + k, s, n); k += n; }
+        t[k] = 0; free(s); s = t;
+    }
     if (cls == G_AFFIX) {
         /* what editors, terminals, chat programs and copy-and-paste put around or into a phrase without the user seeing it: byte-order
          * mark, zero-width and directional marks, no-break and ideographic spaces, soft hyphen, tab, CR, LF, quotes.  None of them
@@ -202,7 +215,7 @@ void pv_gen_string(pv_rng* r, unsigned enabled, pv_gstr* g) {
         for (size_t i = 0; i < n; ++i) { uint8_t b = (uint8_t)pv_rand64(r); if (pv_randn(r, 6) == 0) b = ' '; s[i] = (char)(b ? b : 0x80); }
         s[n] = 0;
     }
-    if (compose && cls != G_BYTES && cls != G_BYTEEDIT && cls != G_AFFIX) { char* c = pv_nfc_alloc(s); free(s); s = c; }
+    if (compose && cls != G_BYTES && cls != G_BYTEEDIT && cls != G_AFFIX && cls != G_MANYTOK) { char* c = pv_nfc_alloc(s); free(s); s = c; }
     g->s = pv_exact_str(s);          /* exact-size block: a read past the terminator hits a red zone */
     free(s);
     g->len = strlen(g->s);
